@@ -658,7 +658,7 @@ var opTable = []struct {
 	w    int
 }{
 	{"create", 24}, {"revoke-existing", 12}, {"revoke-unknown", 6}, {"revoke-admin", 3}, {"revoke-revoked", 5},
-	{"http-auth", 12}, {"ws-auth", 10}, {"restart", 4}, {"create-as-user", 2}, {"revoke-as-user", 3}, {"revoke-commit-fails", 3}, {"create-insert-fails", 2}, {"revoke-delete-fails", 2}, {"create-burst", 2}, {"ws-many", 2}, {"revoke-during-lookups", 3},
+	{"http-auth", 12}, {"ws-auth", 10}, {"restart", 4}, {"create-as-user", 2}, {"revoke-as-user", 3}, {"revoke-commit-fails", 3}, {"create-insert-fails", 2}, {"revoke-delete-fails", 2}, {"create-burst", 3}, {"ws-many", 2}, {"revoke-during-lookups", 3},
 }
 
 // lockEvery: one sequence in lockEvery additionally revokes one token while a reader holds a lock (a busy timeout each)
@@ -880,12 +880,12 @@ func (s *seq) run(rng *rand.Rand, n int) {
 			}
 		case "create-burst":
 			// several clients ask for a token at the same moment: every answer is a different, working token
-			s.op(kind, "create 16 tokens from 8 clients at once")
+			s.op(kind, "create 16 tokens from 16 clients at once")
 			type ans struct {
 				code int
 				tok  string
 			}
-			out := make([][]ans, 8)
+			out := make([][]ans, 16)
 			var wg sync.WaitGroup
 			start := make(chan struct{})
 			for g := range out {
@@ -894,7 +894,7 @@ func (s *seq) run(rng *rand.Rand, n int) {
 				go func() {
 					defer wg.Done()
 					<-start
-					for k := 0; k < 2; k++ {
+					for k := 0; k < 1; k++ {
 						w := e.st.HTTP(http.MethodPost, accessPath, []byte("{}"), bearer(rig.AdminToken))
 						out[g] = append(out[g], ans{w.Code, tokenOf(w.Body.Bytes())})
 					}
